@@ -55,6 +55,24 @@ func main() {
 		}
 	}
 
+	// corpus: two cooperating caches -- the permanent state cache holds states read from the permanent
+	// store; a later block rewrites them through a write database whose own state cache is smaller than the
+	// block (so it does not hold every state of its block); after that block is merged the reads must give
+	// the new states (write cache sizes 1, 2 and none; permanent cache 100 and 2)
+	for i, wc := range []int{1, 2, 0, 1} {
+		cr := vh.NewRand(uint64(900 + i))
+		w := chain.NewWorld(cr, 6, 2, 2)
+		keys := []int{2, 3, 4, 5}
+		kops := [][]int{nil, nil, nil, nil}
+		b0 := w.NewBlock(chain.BlockShape{H: 0, Keys: keys, KeyOps: kops, Suf: true, SH: 0, Pol: true})
+		b1 := w.NewBlock(chain.BlockShape{H: 1})
+		b2 := w.NewBlock(chain.BlockShape{H: 2, Keys: keys, KeyOps: kops, Suf: true, SH: 1, Pol: true})
+		b3 := w.NewBlock(chain.BlockShape{H: 3})
+		ops := []chain.Op{{T: "W", B: b0}, {T: "W", B: b1}, {T: "M"}, {T: "W", B: b2, Cache: wc}, {T: "W", B: b3}, {T: "M"}, {T: "M"}, {T: "C", N: 0}}
+		cfg := chain.Cfg{NKeys: 6, HLo: -1, HHi: 5, SHHi: 3, NIn: 2, NKn: 2}
+		runOps(o, res, cases, w, ops, cfg, []int{100, 100, 100, 2}[i], -1-i, 4)
+	}
+
 	nchains := o.Pick(60, 1500)
 	r := vh.NewRand(o.Seed)
 	for ci := 0; ci < nchains; ci++ {
@@ -76,7 +94,14 @@ func main() {
 func runChain(o *vh.Opts, res *vh.Result, cases *vh.Cases, cr *vh.Rand, p chain.Params, ci int) {
 	w := chain.NewWorld(cr, p.NKeys, p.NIn, p.NKn)
 	ops, cfg := chain.Generate(cr, w, p)
-	cache := []int{0, 1, 3, 100}[cr.Intn(4)]
+	cache := []int{0, 1, 2, 100, 100}[cr.Intn(5)]
+	if p.Base > 0 {
+		res.Dist("base>0")
+	}
+	runOps(o, res, cases, w, ops, cfg, cache, ci, p.Blocks)
+}
+
+func runOps(o *vh.Opts, res *vh.Result, cases *vh.Cases, w *chain.World, ops []chain.Op, cfg chain.Cfg, cache, ci, nblocks int) {
 	init, steps, mism, err := chain.Run(w, ops, cfg, cache, nil)
 	rp := replay{Seed: o.Seed, Chain: ci, Cache: cache, Cfg: cfg, Ops: ops}
 	if err != nil {
@@ -100,18 +125,21 @@ func runChain(o *vh.Opts, res *vh.Result, cases *vh.Cases, cr *vh.Rand, p chain.
 	}
 	res.Evaluations += nreads - 1
 	res.Count(fmt.Sprintf("chain-%d", ci), nm > 0 && ns > 0)
-	res.Dist(fmt.Sprintf("blocks<=%d", ((p.Blocks+9)/10)*10))
+	res.Dist(fmt.Sprintf("blocks<=%d", ((nblocks+9)/10)*10))
+	res.Dist(fmt.Sprintf("perm_cache=%d", cache))
+	for _, op := range ops {
+		if op.T == "W" {
+			res.Dist(fmt.Sprintf("write_cache=%d", op.Cache))
+		}
+	}
 	if nr > 0 {
 		res.Dist("with_remove")
-	}
-	if p.Base > 0 {
-		res.Dist("base>0")
 	}
 	res.Distribution["steps"] += len(ops)
 	res.Distribution["merges"] += nm
 	res.Distribution["suffrage_changes"] += ns
 	if ci < 3 {
-		res.Sample(map[string]any{"chain": ci, "blocks": p.Blocks, "steps": len(ops), "cfg": cfg, "merges": nm, "removes": nr, "suffrage_changes": ns, "reads": nreads})
+		res.Sample(map[string]any{"chain": ci, "blocks": nblocks, "steps": len(ops), "cfg": cfg, "merges": nm, "removes": nr, "suffrage_changes": ns, "reads": nreads})
 	}
 	// oracle failures: one Fail per (read kind) per chain, with the first failing step
 	seen := map[string]bool{}
@@ -192,7 +220,7 @@ func concurrent(o *vh.Opts, res *vh.Result, r *vh.Rand) {
 		started.Store(-1)
 		write := func(i int) bool {
 			started.Store(int64(i))
-			ok, err := d.Write(blocks[i], cr.Chance(1, 2))
+			ok, err := d.Write(blocks[i], chain.WriteCacheSize(cr))
 			if err != nil || !ok {
 				res.Fail("concurrent-write-failed", fmt.Sprintf("round %d block %d: ok=%v err=%v", round, i, ok, err), map[string]any{"seed": o.Seed, "round": round})
 				return false
@@ -345,7 +373,7 @@ func cacheRace(o *vh.Opts, res *vh.Result) {
 		b0, b1, b2, b3 := mk(0, true, true), mk(1, false, false), mk(2, true, false), mk(3, false, false)
 		good := true
 		for _, b := range []*chain.Blk{b0, b1} {
-			ok, err := d.Write(b, false)
+			ok, err := d.Write(b, 0)
 			good = good && step("write", ok, err)
 		}
 		ok, err := d.MergePerm() // block 0 (with key 2) is in the permanent store now; its cache entry is purged
@@ -374,7 +402,7 @@ func cacheRace(o *vh.Opts, res *vh.Result) {
 			continue
 		}
 		for _, b := range []*chain.Blk{b2, b3} {
-			ok, err := d.Write(b, false)
+			ok, err := d.Write(b, 0)
 			good = good && step("write", ok, err)
 		}
 		seen := chain.ImplReader{D: d}.State(2) // the newer state is returned here (block 2 is a temp)
